@@ -247,3 +247,22 @@ Example ex_history :
   = [EWaiting 0; EWaiting 1; EUnderflow; ECancelled 0; EDelivered 1 5%Z; EQueued 6%Z; EOverflow 7%Z;
      EImmediate 2 6%Z; EWaiting 3].
 Proof. vm_compute. reflexivity. Qed.
+
+(** re-entrant histories are flat histories: what [run_re] computes is [run] on the operations it executed *)
+Lemma run_re_flat size backlog react fuel : forall s ops s' es done,
+  run_re size backlog react fuel s ops = (s', es, done) -> run size backlog s done = (s', es).
+Proof.
+  induction fuel as [|f IH]; intros s ops s' es done H.
+  - cbn in H. inversion H; subst. reflexivity.
+  - destruct ops as [|o r]; cbn [run_re] in H.
+    + inversion H; subst. reflexivity.
+    + destruct (step size backlog s o) as [s1 e] eqn:Es.
+      destruct (run_re size backlog react f s1 (reaction_of react e ++ r)) as [[s2 es2] done2] eqn:Er.
+      inversion H; subst. cbn [run]. rewrite Es. rewrite (IH _ _ _ _ _ Er). reflexivity.
+Qed.
+
+Example ex_reentrant :
+  (* get 0 waits; its callback, run from inside put, issues another get and a put *)
+  run_re None (Some 1) (fun i => if Nat.eqb i 0 then [Get; Put 9%Z] else []) 10 init [Get; Put 5%Z]
+  = (mk [] [] 2, [EWaiting 0; EDelivered 0 5%Z; EWaiting 1; EDelivered 1 9%Z], [Get; Put 5%Z; Get; Put 9%Z]).
+Proof. vm_compute. reflexivity. Qed.
